@@ -110,6 +110,21 @@ def build_pel(rng, u, reg, plugins):
         r = rng.random()
         if r < 0.6:
             secs.append(gen.gen_user_section(rng, u, creator, ext=rng.random() < 0.35, fixtures=True, plugins_enabled=plugins))
+            s0 = secs[-1]
+            if s0.m.get("flavor") in ("fx_ok", "fx_list", "fx_hostile") and rng.random() < 0.4:
+                # the byte-identical payload for the same parser module, under another section version / sub-type:
+                # the parser is consulted again with THIS section's version and sub-type
+                ver2 = (s0.m["ver"] + rng.randrange(1, 255)) & 0xFF
+                sub2 = s0.m["sub"] if rng.random() < 0.5 else (s0.m["sub"] + 1) & 0xFF
+                ext = s0.kind == "ED"
+                t = pm.sec_ud(rng, u, creator, s0.m["comp"], sub2, ver2, s0.payload,
+                              ext_creator=s0.m["creator"] if ext else None, expect_mode="plugin")
+                t.m["flavor"] = s0.m["flavor"]
+                t.note = s0.m["flavor"]
+                if s0.m["flavor"] == "fx_ok" and plugins:
+                    name = (s0.m["creator"].lower() + "%04X" % s0.m["comp"]).lower()
+                    t.expect.append(("*", "contains", fxlog.ud_result("udparsers.%s.%s" % (name, name), sub2, ver2, s0.payload)))
+                secs.append(t)
         elif r < 0.75:
             secs.append(pm.gen_src(rng, u, False, creator, reg=reg))
         elif r < 0.85:
@@ -289,8 +304,12 @@ def run_m2c00(spec, ctx, rng, u):
              2: {"hlog": "nimitz_pte.h", "ilog": "nimitz_pte.h", "trace": "nimitzStringFile"}}
     for _ in range(spec["reps"]):
         for sub in range(256):
+            fixed = None
             for ver in (0, 1, 2, 3, rng.randrange(4, 256)):
-                payload = rng.choice([iogen.gen_ilog(rng, [], 4), iogen.gen_trace(rng, [], nentries=2), bytes(rng.randrange(256) for _ in range(40)),
+                if fixed is not None and sub % 2 == 0:
+                    payload = fixed           # byte-identical payload under another version: decoded again, not remembered
+                else:
+                  payload = fixed = rng.choice([iogen.gen_ilog(rng, [], 4), iogen.gen_trace(rng, [], nentries=2), bytes(rng.randrange(256) for _ in range(40)),
                                       bytes(rng.randrange(1, 256) for _ in range(rng.choice([5, 13, 45]))) + b"\0" * 3,
                                       bytes(rng.randrange(256) for _ in range(44)) + b"\0" * 4])
                 del log[:]
